@@ -1,5 +1,6 @@
 """C12 - ill-formed UTF input is reported or replaced per policy, never propagated (abstract interpretation over code-unit classes)."""
 from rules import utf_checks as K
+from bsv.dtab import AnalysisBroken
 
 PROP = 'C12'
 LEVEL = 'other'
@@ -12,7 +13,7 @@ EXPLANATION = ('The cross-width transcoders (UTF-8 decode to 16/32 bit, UTF-8 en
 ASSUMPTIONS = ['the first sequence of the input is representative: the loops are interpreted for their first iteration from an arbitrary start state',
                'raw-pointer instantiations stand for all iterator types (iterator adapters are checked by C11 R11.1)']
 TRUSTED = ['clang 14 AST + constant evaluation', 'bsfacts', 'bsv/dtab.py + bsv/interval.py', 'spec/unicode_spec.py']
-UNITS = ['w_convert.cpp']
+UNITS = ['w_convert.cpp', 'csv_readers.cpp', 'csv_writers.cpp']
 
 
 def run(prog, rep):
@@ -25,3 +26,61 @@ def run(prog, rep):
     K.check_encode_from32(prog, rep, None, 'R12.5', 'R12.1')
     K.check_from16(prog, rep, None, 'R12.5', 'R12.1')
     K.check_result_count_argument(prog, rep, 'R12.3')
+    rep.rule('R12.6', 'the configured error policy and error mark reach the transcoder: a function that holds a policy / mark (its own parameter '
+                      'or a data member of its class) never calls a transcoder leaving the corresponding parameter to its default argument', floor=30)
+    check_policy_forwarding(prog, rep, 'R12.6')
+
+
+def check_policy_forwarding(prog, rep, rule):
+    """Skip-with-default-mark is the default of every transcoder entry point: a forwarding layer that drops the caller's policy or mark still
+    compiles and silently answers with the default one."""
+    from bsv.facts import strip
+    POLICY = 'BitSerializer::Convert::Utf::UtfEncodingErrorPolicy'
+
+    def kind_of(name, t):
+        if t.replace('const ', '').strip() == POLICY:
+            return 'policy'
+        if 'mark' in (name or '').lower() and t.rstrip().endswith('*'):
+            return 'mark'
+        return None
+    n_sites = 0
+    for f in sorted(prog.funcs.values(), key=lambda g: g.id):
+        if f.body is None or 'conversion_detail/convert_utf.h' not in f.relfile:
+            continue
+        have = {}
+        for p in f.params:
+            if 't' in p:
+                k = kind_of(p.get('n'), f.type(p))
+                if k:
+                    have[k] = 'parameter %s' % p.get('n')
+        rec = prog.records.get(f.cls) if f.cls else None
+        for fl in (rec or {}).get('fields', []):
+            k = kind_of(fl.get('n'), fl.get('t') if isinstance(fl.get('t'), str) else (rec['_tu']['types'][fl['t']] if 't' in fl else ''))
+            if k and k not in have:
+                have[k] = 'member %s' % fl.get('n')
+        if not have:
+            continue
+        for c in f.walk():
+            if c['k'] not in ('CallExpr', 'CXXMemberCallExpr'):
+                continue
+            s_ = f.callee(c)
+            g = prog.funcs.get(s_['id']) if s_ is not None and s_.get('repo') else None
+            if g is None or 'conversion_detail/convert_utf.h' not in g.relfile:
+                continue
+            args = c['c'][1:]
+            for i, p in enumerate(g.params):
+                k = kind_of(p.get('n'), g.type(p)) if 't' in p else None
+                if k is None or k not in have:
+                    continue
+                n_sites += 1
+                rep.touch(f)
+                site = '%s -> %s|%s' % ((f.pq if f.cls else f.name), g.name, k)
+                a = args[i] if i < len(args) else None
+                if a is None or a['k'] == 'CXXDefaultArgExpr':
+                    rep.finding(rule, site, f.loc(c), '%s holds an error %s (%s) but calls %s without passing it: the callee falls back to its default '
+                                '(%s), whatever the caller configured' % (f.pq if f.cls else f.name, k, have[k], g.q.split('::')[-2] + '::' + g.name,
+                                                                         'Skip' if k == 'policy' else 'the default error mark'), func=f.id)
+                else:
+                    rep.ok(rule, site + '|' + f.sym.get('targs', '')[:40] + '|' + f.loc(c))
+    if n_sites == 0:
+        raise AnalysisBroken('%s: no forwarding call site found' % rule)
